@@ -43,6 +43,10 @@ func runC17(p *core.Program, r *core.Report) {
 	c17R13(p, r)
 	c17R14(p, r)
 	c17R15(p, r)
+	// R16: "the same on first and later runs": no decision of the generator depends on the methods a type of the processed
+	// package has - the previous run's output is part of that method set (C04.R3; the own-output override is the one
+	// accepted idiom)
+	chainRules(p, r, "R16", "C04", []string{"C04.R3"}, "no generator decision depends on the method set of a type of the processed package")
 }
 
 // c17R8: on-demand generation of same-package dependencies.
